@@ -195,12 +195,14 @@ impl<'a> Iterator for JitValuePathIter<'a> {
                         JitState::Index { value } => match c {
                             '0'..='9' => {
                                 let new_digit = c as isize - '0' as isize;
-                                (
-                                    None,
-                                    JitState::Index {
-                                        value: value * 10 + new_digit,
-                                    },
-                                )
+                                match value
+                                    .checked_mul(10)
+                                    .and_then(|value| value.checked_add(new_digit))
+                                {
+                                    Some(value) => (None, JitState::Index { value }),
+                                    // the index does not fit in an `isize`
+                                    None => (Some(Some(BorrowedSegment::Invalid)), JitState::End),
+                                }
                             }
                             ']' => (
                                 Some(Some(BorrowedSegment::Index(value))),
@@ -211,12 +213,14 @@ impl<'a> Iterator for JitValuePathIter<'a> {
                         JitState::NegativeIndex { value } => match c {
                             '0'..='9' => {
                                 let new_digit = c as isize - '0' as isize;
-                                (
-                                    None,
-                                    JitState::NegativeIndex {
-                                        value: value * 10 - new_digit,
-                                    },
-                                )
+                                match value
+                                    .checked_mul(10)
+                                    .and_then(|value| value.checked_sub(new_digit))
+                                {
+                                    Some(value) => (None, JitState::NegativeIndex { value }),
+                                    // the index does not fit in an `isize`
+                                    None => (Some(Some(BorrowedSegment::Invalid)), JitState::End),
+                                }
                             }
                             ']' => (
                                 Some(Some(BorrowedSegment::Index(value))),
